@@ -1,10 +1,304 @@
-import Srctools.Model.C19
+import Srctools.Proofs.C19
 import Srctools.Gen.Fswalk
-/-! # C19 — property theorems (work in progress) -/
+/-!
+# C19 — all filesystem backends resolve names alike; chains honour priority
+
+Property theorems only, about the model `C19` (Model/C19.lean): Python-dict semantics, the three
+archive-like backends as coded, chains as coded.  `C19_gen_ok` ties the folder matching of the
+three `walk_folder` methods to what `/repo/src/srctools/filesys.py` contains *now*
+(Gen/Fswalk.lean is regenerated on every run).
+`FoldOK fold` is what is assumed of `str.casefold` (slashes fixed, never produced).
+`NormNames F`: every stored name is a normalised path without backslash or trailing slash.
+-/
 namespace C19
 open Path
 
-/-- OBLIGATION on the current source: the three `walk_folder` methods have the fixed shape. -/
+/-- OBLIGATION on the current source: the three `walk_folder` methods have the fixed shape
+(root folder special case, separator-terminated folder, both sides case-folded). -/
 theorem C19_gen_ok : Gen.Fswalk.walkCfg = WalkCfg.fixed := by decide
+
+/-- Stored names are normalised relative-path strings. -/
+def NormNames (F : FileSet) : Prop :=
+  ∀ e ∈ F, normpath e.name = e.name ∧ '\\' ∉ e.name ∧ endsWithSep e.name = false
+
+theorem C19_same_dict {fold : Char → List Char} (hF : FoldOK fold) (F : FileSet) (hN : NormNames F) :
+    mapV fold F = dictOf (F.map fun e => (foldStr fold e.name, e)) ∧
+    mapZ fold F = dictOf (F.map fun e => (foldStr fold e.name, e)) ∧
+    mapP fold F = dictOf (F.map fun e => (foldStr fold e.name, e)) := by
+  refine ⟨?_, ?_, ?_⟩
+  · unfold mapV
+    congr 1
+    apply List.map_congr_left
+    intro e he
+    obtain ⟨h1, h2, _⟩ := hN e he
+    simp only [cleanV, h1, replaceBS_of_not_mem _ h2]
+  · unfold mapZ
+    congr 2
+    apply List.filter_eq_self.mpr
+    intro e he
+    simp [(hN e he).2.2]
+  · unfold mapP
+    congr 1
+    apply List.map_congr_left
+    intro e he
+    obtain ⟨_, h2, _⟩ := hN e he
+    simp only [keyP_eq_keyZ hF, keyZ, replaceBS_of_not_mem _ h2]
+
+/-- **Agreement of lookups.** Over the same normalised file set the in-memory, zip and VPK
+filesystems find the same file (or all find none) for every query whose spelling is normalised
+up to letter case and the kind of slash. -/
+theorem C19_agree {fold : Char → List Char} (hF : FoldOK fold) (F : FileSet) (hN : NormNames F)
+    (q : Str) (hq : normpath q = q) :
+    (lookupV fold F q).map (·.2) = (lookupZ fold F q).map (·.2) ∧
+    (lookupP fold F q).map (·.2) = (lookupZ fold F q).map (·.2) := by
+  obtain ⟨hV, hZ, hP⟩ := C19_same_dict hF F hN
+  unfold lookupV lookupZ lookupP
+  rw [hV, hZ, hP, keyP_eq_keyZ hF]
+  simp only [cleanV, hq, keyZ, Option.map_map]
+  constructor <;> rfl
+
+/-- non-vacuity: mixed case, both slashes. -/
+example :
+    let fold : Char → List Char := fun c => if c = 'M' then ['m'] else if c = 'A' then ['a'] else if c = 'T' then ['t'] else [c]
+    let F : FileSet := [⟨['m','a','t','/','a'], 1⟩, ⟨['M','a','t','2','/','A'], 2⟩]
+    (lookupV fold F ['M','A','T','\\','A']).map (·.2.id) = some 1
+    ∧ (lookupZ fold F ['M','A','T','\\','A']).map (·.2.id) = some 1
+    ∧ (lookupP fold F ['M','A','T','\\','A']).map (·.2.id) = some 1
+    ∧ (lookupZ fold F ['m','a','t']).map (·.2.id) = none := by
+  decide +kernel
+
+/-- **Walk lists exactly the folder (zip).** -/
+theorem C19_walk_zip (fold : Char → List Char) (F : FileSet) (hN : NormNames F) (d : Str)
+    (hd : endsWithSep (keyZ fold d) = false) :
+    walkZ .fixed fold F d = walkSpec fold F (keyZ fold d) := by
+  have hZ : mapZ fold F = dictOf (F.map fun e => (foldStr fold e.name, e)) := by
+    unfold mapZ
+    congr 2
+    apply List.filter_eq_self.mpr
+    intro e he
+    simp [(hN e he).2.2]
+  unfold walkZ walkSpec
+  simp only [hZ, WalkCfg.fixed, hd, Bool.true_and, Bool.not_false, Bool.and_true]
+  congr 2
+  funext kv
+  unfold inFolder
+  cases h : (keyZ fold d).isEmpty with
+  | true =>
+    have : keyZ fold d = [] := List.isEmpty_iff.mp h
+    simp [this]
+  | false => simp
+
+/-- **Walk lists exactly the folder (in-memory).** The cleaned folder `"."` (what `normpath`
+makes of `""`) is the root folder and lists everything. (`normpath` never returns `""`, so the
+cleaned folder is empty only if `casefold` erased every character — excluded by `hne`.) -/
+theorem C19_walk_virtual {fold : Char → List Char} (hF : FoldOK fold) (F : FileSet) (hN : NormNames F)
+    (d : Str) (hd : endsWithSep (cleanV fold d) = false) (hne : cleanV fold d ≠ []) :
+    walkV .fixed fold F d = walkSpec fold F (if cleanV fold d = dot then [] else cleanV fold d) := by
+  obtain ⟨hV, _, _⟩ := C19_same_dict hF F hN
+  unfold walkV walkSpec
+  simp only [hV, WalkCfg.fixed, hd, Bool.true_and, Bool.not_false, if_true, beq_iff_eq]
+  congr 2
+  funext kv
+  unfold inFolder
+  by_cases h : cleanV fold d = dot
+  · simp [h]
+  · have he : (cleanV fold d).isEmpty = false := by
+      cases hc : cleanV fold d with
+      | nil => exact absurd hc hne
+      | cons _ _ => rfl
+    simp [h, he]
+
+/-- **Walk lists exactly the folder (VPK).** VPK matches on the directory part of each stored
+name; that is the same set. -/
+theorem C19_walk_vpk {fold : Char → List Char} (hF : FoldOK fold) (F : FileSet) (hN : NormNames F)
+    (d : Str) (hd : endsWithSep (keyZ fold d) = false) :
+    walkP .fixed fold F d = walkSpec fold F (keyZ fold d) := by
+  obtain ⟨_, _, hP⟩ := C19_same_dict hF F hN
+  unfold walkP walkSpec
+  simp only [hP, WalkCfg.fixed, hd, Bool.true_and, Bool.not_false, Bool.and_true, if_true]
+  congr 1
+  apply List.filter_congr
+  intro kv hkv
+  have hmem := mem_dictOf _ kv hkv
+  obtain ⟨e, _, rfl⟩ := List.mem_map.mp hmem
+  simp only
+  unfold inFolder
+  cases h : (keyZ fold d).isEmpty with
+  | true =>
+    have : keyZ fold d = [] := List.isEmpty_iff.mp h
+    simp [this]
+  | false =>
+    have hne : keyZ fold d ≠ [] := by intro e0; simp [e0] at h
+    simp only [Bool.not_false, if_true, Bool.false_or]
+    obtain ⟨base, hb, hcase⟩ := name_dir_base e.name
+    have hfb := foldStr_no_sep hF base hb
+    rw [Bool.eq_iff_iff]
+    simp only [List.isPrefixOf_iff_prefix]
+    rcases hcase with ⟨hi, hn⟩ | ⟨_, hn⟩
+    · -- top-level file: no directory part
+      have hdir : dirOf e.name = [] := by simp [dirOf, hi, joinWith]
+      have hnil : foldStr fold ([] : Str) = [] := rfl
+      have hke : foldStr fold e.name = foldStr fold base := by rw [← hn]
+      rw [hdir, hnil, List.nil_append, hke]
+      constructor
+      · intro hp
+        exfalso
+        have := List.IsPrefix.length_le hp
+        simp only [List.length_append, List.length_cons, List.length_nil] at this
+        exact hne (List.length_eq_zero_iff.mp (by omega))
+      · intro hp
+        exfalso
+        apply hfb
+        exact (List.IsPrefix.subset hp) (by simp)
+    · have hk : foldStr fold e.name = foldStr fold (dirOf e.name) ++ '/' :: foldStr fold base := by
+        conv => lhs; rw [hn]
+        rw [foldStr_append, foldStr_cons, hF.sl]; rfl
+      have := prefix_dir_iff (keyZ fold d) (foldStr fold (dirOf e.name)) (foldStr fold base) hfb
+      rw [← hk] at this
+      exact this.symm
+
+/-- **Every listed name can be looked up and yields that file** (in-memory; any folder,
+any file set, before and after the fixes). -/
+theorem C19_walk_sound_virtual (c : WalkCfg) (fold : Char → List Char) (F : FileSet) (d : Str)
+    (p : Str) (e : FEnt) (h : (p, e) ∈ walkV c fold F d) :
+    lookupV fold F p = some (p, e) := by
+  unfold walkV at h
+  simp only [List.mem_map, List.mem_filter] at h
+  obtain ⟨kv, ⟨hkv, _⟩, heq⟩ := h
+  simp only [Prod.mk.injEq] at heq
+  obtain ⟨rfl, rfl⟩ := heq
+  have hmem := mem_dictOf _ kv hkv
+  obtain ⟨e', _, he'⟩ := List.mem_map.mp hmem
+  have hk : kv.1 = cleanV fold kv.2.name := by rw [← he']
+  have hg := dictGet_of_mem (mapV fold F) (dictOf_nodup _) kv.1 kv.2 hkv
+  unfold lookupV
+  rw [← hk, hg]
+  rfl
+
+/-- **Every listed name can be looked up and yields that file** (zip; stored names without
+backslashes). -/
+theorem C19_walk_sound_zip (c : WalkCfg) (fold : Char → List Char) (F : FileSet)
+    (hN : ∀ e ∈ F, '\\' ∉ e.name) (d : Str) (p : Str) (e : FEnt) (h : (p, e) ∈ walkZ c fold F d) :
+    lookupZ fold F p = some (p, e) := by
+  unfold walkZ at h
+  simp only [List.mem_map, List.mem_filter] at h
+  obtain ⟨kv, ⟨hkv, _⟩, heq⟩ := h
+  simp only [Prod.mk.injEq] at heq
+  obtain ⟨rfl, rfl⟩ := heq
+  have hmem := mem_dictOf _ kv hkv
+  obtain ⟨e', he'F, he'⟩ := List.mem_map.mp hmem
+  have hbs : '\\' ∉ kv.2.name := by
+    rw [← he']; exact hN e' (List.mem_filter.mp he'F).1
+  have hk : kv.1 = keyZ fold kv.2.name := by
+    rw [← he']; simp only [keyZ]
+    rw [replaceBS_of_not_mem _ (by rw [← he'] at hbs; exact hbs)]
+  have hg := dictGet_of_mem (mapZ fold F) (dictOf_nodup _) kv.1 kv.2 hkv
+  unfold lookupZ
+  rw [← hk, hg, replaceBS_of_not_mem _ hbs]
+  rfl
+
+/-- **Every listed name can be looked up and yields that file** (VPK: the `File` found carries
+the folded key as its path, the file is the same). -/
+theorem C19_walk_sound_vpk (c : WalkCfg) (fold : Char → List Char) (F : FileSet) (d : Str)
+    (p : Str) (e : FEnt) (h : (p, e) ∈ walkP c fold F d) :
+    (lookupP fold F p).map (·.2) = some e := by
+  unfold walkP at h
+  simp only [List.mem_map, List.mem_filter] at h
+  obtain ⟨kv, ⟨hkv, _⟩, heq⟩ := h
+  simp only [Prod.mk.injEq] at heq
+  obtain ⟨rfl, rfl⟩ := heq
+  have hmem := mem_dictOf _ kv hkv
+  obtain ⟨e', _, he'⟩ := List.mem_map.mp hmem
+  have hk : kv.1 = keyP fold kv.2.name := by rw [← he']
+  have hg := dictGet_of_mem (mapP fold F) (dictOf_nodup _) kv.1 kv.2 hkv
+  unfold lookupP
+  rw [← hk, hg]
+  rfl
+
+/-- The three defects of the original `walk_folder` methods, as model facts: the root folder of
+an in-memory filesystem lists nothing; `"ma"` lists `mat/a` in all three; `"Mat"` misses `Mat/b`
+(in-memory) and `"MAT"` misses `mat/a` (VPK). All are repaired in the fixed configuration. -/
+theorem C19_walk_bugs :
+    let fold : Char → List Char := fun c => if c = 'M' then ['m'] else if c = 'A' then ['a'] else if c = 'T' then ['t'] else [c]
+    let F : FileSet := [⟨['m','a','t','/','a'], 1⟩]
+    let G : FileSet := [⟨['M','a','t','/','b'], 2⟩]
+    walkV .original fold F [] = []
+    ∧ (walkV .original fold F ['m','a']).length = 1
+    ∧ (walkZ .original fold F ['m','a']).length = 1
+    ∧ (walkP .original fold F ['m','a']).length = 1
+    ∧ walkV .original fold G ['M','a','t'] = []
+    ∧ walkP .original fold F ['M','A','T'] = []
+    ∧ (walkV .fixed fold F []).length = 1
+    ∧ walkV .fixed fold F ['m','a'] = [] ∧ walkZ .fixed fold F ['m','a'] = [] ∧ walkP .fixed fold F ['m','a'] = []
+    ∧ (walkV .fixed fold G ['M','a','t']).length = 1
+    ∧ (walkP .fixed fold F ['M','A','T']).length = 1 := by
+  decide +kernel
+
+/-- **A chain returns the first member that has the name**: every earlier member answered
+"not found" for its own `prefix/name`, and the content is that member's. -/
+theorem C19_chain (E : Env) (name : Str) (ms : List Member) (full : Str) (i : Nat)
+    (h : chainLookup E name ms = .ok (full, i)) :
+    ∃ pre m post, ms = pre ++ m :: post ∧ full = replaceBS (join2 m.pfx name) ∧
+      (∀ m' ∈ pre, lookup E m'.b (replaceBS (join2 m'.pfx name)) = .error .notFound) ∧
+      ∃ p, lookup E m.b full = .ok (p, i) := by
+  induction ms with
+  | nil => simp [chainLookup] at h
+  | cons m ms ih =>
+    rw [chainLookup] at h
+    split at h
+    · rename_i p' i' hl
+      simp only [Except.ok.injEq, Prod.mk.injEq] at h
+      obtain ⟨rfl, rfl⟩ := h
+      exact ⟨[], m, ms, rfl, rfl, by simp, p', hl⟩
+    · rename_i hl
+      obtain ⟨pre, m', post, rfl, hfull, hpre, hfound⟩ := ih h
+      refine ⟨m :: pre, m', post, rfl, hfull, ?_, hfound⟩
+      intro x hx
+      rcases List.mem_cons.mp hx with rfl | hx
+      · exact hl
+      · exact hpre x hx
+    · cases h
+
+/-- Conversely: if all earlier members lack the name and member `m` has it, the chain returns
+`m`'s file under the name `prefix/name`. -/
+theorem C19_chain_first (E : Env) (name : Str) (pre : List Member) (m : Member) (post : List Member)
+    (p : Str) (i : Nat)
+    (hpre : ∀ m' ∈ pre, lookup E m'.b (replaceBS (join2 m'.pfx name)) = .error .notFound)
+    (hm : lookup E m.b (replaceBS (join2 m.pfx name)) = .ok (p, i)) :
+    chainLookup E name (pre ++ m :: post) = .ok (replaceBS (join2 m.pfx name), i) := by
+  induction pre with
+  | nil => simp [chainLookup, hm]
+  | cons x pre ih =>
+    simp only [List.cons_append]
+    rw [chainLookup]
+    simp only [hpre x List.mem_cons_self]
+    exact ih (fun m' hm' => hpre m' (List.mem_cons_of_mem _ hm'))
+
+/-- **Priority insertion**: a member added with `priority=True` that has the name wins. -/
+theorem C19_priority (E : Env) (name : Str) (ms : List Member) (m : Member) (p : Str) (i : Nat)
+    (hm : lookup E m.b (replaceBS (join2 m.pfx name)) = .ok (p, i)) :
+    chainLookup E name (addSys ms m true) = .ok (replaceBS (join2 m.pfx name), i) := by
+  simpa [addSys] using C19_chain_first E name [] m ms p i (by simp) hm
+
+/-- **De-duplicated chain walk**: it is a sub-list of the repeating walk (first occurrences
+kept, order kept), no two listed paths are equal up to case, and every path of the repeating
+walk is represented. -/
+theorem C19_dedup (E : Env) (folder : Str) (ms : List Member) (l : List (Str × Nat))
+    (h : chainWalk E folder ms = .ok l) :
+    ∃ l0, chainWalkRepeat E folder ms = .ok l0 ∧ l.Sublist l0 ∧
+      (l.map fun x => foldStr E.fold x.1).Nodup ∧
+      ∀ x ∈ l0, ∃ y ∈ l, foldStr E.fold y.1 = foldStr E.fold x.1 := by
+  unfold chainWalk at h
+  cases h0 : chainWalkRepeat E folder ms with
+  | error e => rw [h0] at h; cases h
+  | ok l0 =>
+    rw [h0] at h
+    simp only [bind, Except.bind, pure, Except.pure, Except.ok.injEq] at h
+    subst h
+    refine ⟨l0, rfl, dedupFold_sublist _ _ _, dedupFold_nodup _ _ _, ?_⟩
+    intro x hx
+    rcases dedupFold_cover E.fold [] l0 x hx with h | h
+    · cases h
+    · exact h
 
 end C19
